@@ -81,7 +81,7 @@ PAR = {
     "C18": dict(models=["syncproto", "syncxfer", "fixpoint"], par=["parfix", "parfb", "parnest3"], needs=["hk:sync_claim", "we", "tstart"],
                 rule="fixpoint / fallback cycle programs entered concurrently at different members from 2-4 threads; parnest3: chains of "
                      "4-6 fixpoint functions with back edges entered by 3-4 threads at distinct members (nested cycles across threads)"),
-    "C19": dict(models=["syncproto", "syncxfer"], par=["pardag", "parfix", "parfb", "parnest3", "parpcycle", "parwrite", "parcancel", "parpanic"], monitors=("sync",), needs=["hk:sync_claim", "tstart"],
+    "C19": dict(models=["syncproto", "syncxfer"], par=["pardag", "parfix", "parfb", "parnest3", "parpcycle", "parwrite", "parcancel", "parpanic", "parpaniccancel"], monitors=("par", "sync"), needs=["hk:sync_claim", "tstart"],
                 rule="all parallel families; every protocol event (hook H1) is applied to the SyncOps protocol state and its guard "
                      "and the protocol invariants are evaluated; non-trivial = threads ran and claimed keys"),
     "C24": dict(models=["pagealloc"], par=["paralloc", "parstruct"], monitors=("par",), needs=["tstart", "new"],
@@ -105,7 +105,7 @@ TIERS = {
 # families that need long histories
 NOPS_FACTOR = {"churn": 3, "reclaim": 2}
 # template families that need many samples
-JOBS_FACTOR = {"fixshape": 5, "fbshape": 3, "parmemo": 3, "paralloc": 0.5}
+JOBS_FACTOR = {"fixshape": 5, "fbshape": 3, "parmemo": 3, "paralloc": 0.5, "parpaniccancel": 3}
 
 ASSUME_SEQ = [
     "TLC evaluates specs/core/CoreTrace.tla + Sem.tla faithfully; the harness interpreter logs what it does",
@@ -211,6 +211,28 @@ def run_fixmc_part(pid, tier, seed, binary, wd, results, info):
         f"execution-sequence drift={len(drift)} ({mc['wall_s']:.0f}s)")
     if drift:
         log(f"DRIFT: salsa's sequence of body executions differs from the Fixpoint model's in {len(drift)} fetches "
+            f"(not a property violation by itself). e.g. {json.dumps(drift[:1])}")
+    # the same engine across revisions (FixRev.tla): exhaustive small instances + simulated larger ones
+    mc = fixmc.run_fixrev(tier, wd)
+    jobs = fixmc.replay_jobs_rev(mc, 6000 if tier == "quick" else 60000, seed)
+    r = seqcheck.run_family(binary, "mc-fixrev", seed, 0, 0, wd, jobs=jobs)
+    checked, wrong, drift = fixmc.compare(jobs, r["trace"])
+    results.append(r)
+    info["states"] += mc["distinct"]
+    info["transitions"] += mc["generated"]
+    info["mc_models"].append({"spec": "specs/cycle/FixRev.tla", "family": "mc-fixrev", "constants": mc["consts"],
+                              "distinct_states": mc["distinct"], "states_generated": mc["generated"], "depth": mc["depth"],
+                              "invariants": fixmc.REV_INVARIANTS, "leaf_histories_emitted": len(mc["replays"]),
+                              "replayed_on_impl": len(jobs), "value_mismatches": len(wrong), "wall_s": round(mc["wall_s"], 1)})
+    info["replayed_histories"] += len(jobs)
+    info["replay_fetches_compared"] += checked
+    info["drift"] += len(drift)
+    info["drift_samples"] += drift[:3]
+    log(f"[{pid}] MC fixrev: {mc['distinct']} states (exhaustive + simulated configurations {mc['consts']}), {len(mc['replays'])} behaviours, "
+        f"{len(jobs)} replayed on salsa, {checked} fetches compared, value mismatches={len(wrong)}, "
+        f"execution-sequence drift={len(drift)} ({mc['wall_s']:.0f}s)")
+    if drift:
+        log(f"DRIFT: salsa's sequence of body executions differs from the FixRev model's in {len(drift)} fetches "
             f"(not a property violation by itself). e.g. {json.dumps(drift[:1])}")
     return info
 
